@@ -217,6 +217,9 @@ func (r *Run) Violation(siteKey, what string, replay any) {
 	}
 }
 
+// KnownHits: number of known-finding sites reproduced so far.
+func (r *Run) KnownHits() int { r.mu.Lock(); defer r.mu.Unlock(); return len(r.knownHit) }
+
 func (r *Run) Violations() int { r.mu.Lock(); defer r.mu.Unlock(); return len(r.viol) }
 
 // HarnessError aborts with exit code 2: the machinery, not the property.
